@@ -82,6 +82,10 @@ def instances(tier):
         if not symp:
             out.append(dict(id="aux-%s" % cls.__name__, kind="aux", cls=cls.__name__, pmax=min(p, 10 if not quick else 7), budget=b))
             out.append(dict(id="warm-%s" % cls.__name__, kind="warm", cls=cls.__name__, pmax=min(p, 3 if quick else 5), budget=b))
+    # process history: an integrator of the scheme was first built in a NARROWER precision (a float32 system used the method earlier in the
+    # session); the coefficients a later integrator uses still satisfy the low-order conditions to float64 rounding level (slack 2^-40)
+    for nm in (("RK45CKSolver", "DOPRI45") if quick else ("RK45CKSolver", "DOPRI45", "RK4Solver", "RK8713MSolver", "RK108Solver", "GaussLegendre4", "RadauIIA5")):
+        out.append(dict(id="narrower-precision-first-%s" % nm, kind="precision_history", cls=nm, pmax=3 if quick else 4, budget=b))
     out.append(dict(id="simplifying-RadauIIA19", kind="simplifying", cls="RadauIIA19", budget=b))
     bases = ["EulerSolver", "MidpointSolver", "RK4Solver", "SymplecticEulerSolver", "ImplicitMidpoint"] if quick else \
         ["EulerSolver", "MidpointSolver", "RK4Solver", "DOPRI45", "ImplicitMidpoint", "SymplecticEulerSolver"]
@@ -332,6 +336,32 @@ def scenario(c, inst):
             c.case()
             c.check("c01.tree_condition_after_parameter_change.%s" % inst["cls"], _within(c, r[1][0], h, n, T.gamma(tr)),
                     info=dict(cls=inst["cls"], tree=T.tree_str(tr), order=n))
+        return
+    if kind == "precision_history":
+        cls = _cls(inst["cls"])
+        import desolver.integrators as I
+        symp = issubclass(cls, I.ExplicitSymplecticIntegrator)
+        for dt_ in (np.float16, np.float32):
+            run(cls, (2,) if symp else (1,), dtype=np.dtype(dt_), rtol=1e-3, atol=1e-3)      # earlier users of the scheme in this process
+        tight = 2.0 ** -40
+        for tr in T.all_trees_up_to(inst["pmax"]):
+            n = T.order(tr)
+            children, sub = T.layout(tr)
+            if symp:
+                continue        # (separable layouts are the bicoloured trees of the main instances; the plumbing of the table is shared)
+            st, r = run(_step, c, cls, TreeRhs(c, children), len(children), t, h, n + 2)
+            if st != "ok":
+                c.check("c01.step_runs", False, info=dict(tree=T.tree_str(tr), err=repr(r), history="narrower precision first"))
+                continue
+            c.case()
+            got = r[1][0]
+            hn = 1
+            for _ in range(n):
+                hn = hn * h
+            ex = hn * (1.0 / T.gamma(tr)) if not c.symbolic else hn * _frac(1, T.gamma(tr))
+            d = got - ex
+            ok = (d * d <= (tight * tight) * (ex * ex)) if c.symbolic else bool(abs(d) <= tight * abs(ex) + 1e-300)
+            c.check("c01.tree_condition_to_float64_rounding_after_narrower_precision_use.%s" % inst["cls"], ok, info=dict(cls=inst["cls"], tree=T.tree_str(tr), order=n))
         return
     if kind == "aux":
         cls = _cls(inst["cls"])
